@@ -261,3 +261,23 @@ func init() {
 		return nil
 	}
 }
+
+func init() {
+	intrinsics["vpGo"] = func(ex *Exec, c *frame, fn *ssa.Function, a []Value) Value {
+		ex.effect()
+		ex.sched().spawnThread(a[0])
+		return nil
+	}
+	intrinsics["vpJoin"] = func(ex *Exec, c *frame, fn *ssa.Function, a []Value) Value {
+		ex.effect()
+		ex.sched().join()
+		return nil
+	}
+	intrinsics["vpYield"] = func(ex *Exec, c *frame, fn *ssa.Function, a []Value) Value {
+		if ex.threads != nil {
+			ex.effect()
+			ex.threads.yield()
+		}
+		return nil
+	}
+}
